@@ -5,8 +5,8 @@ import json, os, re, subprocess, sys, time
 
 VERIF = os.path.dirname(os.path.dirname(os.path.abspath(__file__)))
 EXTRA = {"C11-3": ["C15"], "C12-1": ["C11"], "C15-2": ["C11"], "C10-2": ["C15"], "C18-3": ["C15"], "C15-3": ["C18"],
-         "C01-4": ["C02", "C05"], "C02-5": ["C01", "C03"], "C02-6": ["C10"], "C05-6": ["C03"], "C07-4": ["C03"], "C07-5": ["C03"],
-         "C12-4": ["C04"], "C12-5": ["C03"], "C12-6": ["C11"], "C13-4": ["C09"], "C20-4": ["C09"]}
+         "C01-4": ["C02", "C05"], "C02-5": ["C01", "C03"], "C02-6": ["C10", "C01"], "C05-6": ["C03"], "C07-4": ["C03"], "C07-5": ["C03"],
+         "C12-4": ["C04"], "C12-5": ["C03"], "C12-6": ["C11"], "C13-4": ["C09"], "C20-4": ["C09"], "C11-6": ["C01", "C10"]}
 ONLY_EXTRA = bool(os.environ.get("ONLY_EXTRA"))
 names = sys.argv[1:] or sorted(os.listdir(os.path.join(VERIF, "seeded")))
 res_path = os.path.join(VERIF, "seeded", "RESULTS.json")
